@@ -126,109 +126,131 @@ def asan_env(extra=''):
 
 
 class Worker:
-  """Supervised native worker (native/C37/fuzz_xml.cc, worker mode)."""
+  """Supervised native worker (native/C37/fuzz_xml.cc, worker mode). Process creation is slow on this machine
+  (fork ~50 ms), so a spare process is always kept ready and a document that kills the worker costs only the swap."""
+  counter = [0]
 
-  def __init__(self, exe, asan, cwd):
+  def __init__(self, exe, asan, cwd, spares=1):
     self.exe, self.asan, self.cwd = exe, asan, cwd
-    self.p = None
+    self.cur = None
+    self.pool = []
+    self.nspares = spares
     self.starts = 0
-    self.start()
+    self._next()
 
-  def start(self):
-    self.stop()
+  def _spawn(self):
     r1, w1 = os.pipe()
     r2, w2 = os.pipe()
     env = asan_env() if self.asan else dict(os.environ)
-    self.errpath = os.path.join(self.cwd, 'worker_%s.err' % ('asan' if self.asan else 'rel'))
-    self.errf = open(self.errpath, 'w+b')
-    self.p = subprocess.Popen([self.exe, '--vf-worker=%d,%d' % (r1, w2)], pass_fds=(r1, w2), stdin=subprocess.DEVNULL,
-                              stdout=self.errf, stderr=self.errf, env=env, cwd=self.cwd)
+    Worker.counter[0] += 1
+    errpath = os.path.join(self.cwd, 'worker_%s_%d.err' % ('asan' if self.asan else 'rel', Worker.counter[0]))
+    errf = open(errpath, 'wb')
+    p = subprocess.Popen([self.exe, '--vf-worker=%d,%d' % (r1, w2)], pass_fds=(r1, w2), stdin=subprocess.DEVNULL,
+                         stdout=errf, stderr=errf, env=env, cwd=self.cwd)
+    errf.close()
     os.close(r1)
     os.close(w2)
-    self.rfd, self.wfd = r2, w1
-    self.buf = b''
-    self.starts += 1
-    line = self._readline(60)
-    if line != b'READY':
-      raise RuntimeError('C37 worker did not start: %r %s' % (line, self._stderr()))
+    return dict(p=p, rfd=r2, wfd=w1, errpath=errpath, ready=False, buf=b'')
 
-  def stop(self):
-    if self.p is not None:
-      for fd in (self.rfd, self.wfd):
-        try:
-          os.close(fd)
-        except OSError:
-          pass
+  def _close(self, rec):
+    for fd in (rec['rfd'], rec['wfd']):
       try:
-        self.p.kill()
+        os.close(fd)
       except OSError:
         pass
-      self.p.wait()
-      self.errf.close()
-      self.p = None
+    try:
+      rec['p'].kill()
+    except OSError:
+      pass
+    try:
+      rec['p'].wait(timeout=30)
+    except Exception:
+      pass
+    try:
+      os.unlink(rec['errpath'])
+    except OSError:
+      pass
+
+  def _next(self):
+    if self.cur is not None:
+      self._close(self.cur)
+    while len(self.pool) < self.nspares + 1:
+      self.pool.append(self._spawn())
+    self.cur = self.pool.pop(0)
+    self.starts += 1
+    if not self.cur['ready']:
+      line = self._readline(120)
+      if line != b'READY':
+        raise RuntimeError('C37 worker did not start: %r %s' % (line, self._stderr()))
+      self.cur['ready'] = True
+
+  def stop(self):
+    for rec in [self.cur] + self.pool:
+      if rec is not None:
+        self._close(rec)
+    self.cur = None
+    self.pool = []
 
   def _stderr(self, off=0):
     try:
-      with open(self.errpath, 'rb') as f:
+      with open(self.cur['errpath'], 'rb') as f:
         f.seek(off)
         return f.read().decode(errors='replace')
     except Exception:
       return ''
 
   def _readline(self, timeout):
+    rec = self.cur
     deadline = time.time() + timeout
-    while b'\n' not in self.buf:
+    while b'\n' not in rec['buf']:
       left = deadline - time.time()
       if left <= 0:
         return None
-      r, _, _ = select.select([self.rfd], [], [], left)
+      r, _, _ = select.select([rec['rfd']], [], [], left)
       if not r:
         return None
-      chunk = os.read(self.rfd, 65536)
+      chunk = os.read(rec['rfd'], 65536)
       if not chunk:
         return b''
-      self.buf += chunk
-    line, self.buf = self.buf.split(b'\n', 1)
+      rec['buf'] += chunk
+    line, rec['buf'] = rec['buf'].split(b'\n', 1)
     return line
 
   def run(self, text, load=False, parse_only=False, timeout=90):
-    """Execute one document (in a forked child of the worker). A document that kills its child gives died=True and
-    the child's stderr (sanitizer report) in .report; the worker itself survives."""
+    """Execute one document. If it kills the worker: died=True and the process's stderr (sanitizer report / stack
+    printed by the rel worker's signal handler) in .report; a spare worker takes over."""
     data = text if isinstance(text, bytes) else text.encode('utf-8', errors='surrogateescape')
     res = Res()
+    rec = self.cur
     try:
-      off = os.path.getsize(self.errpath)
+      off = os.path.getsize(rec['errpath'])
     except OSError:
       off = 0
     try:
-      os.write(self.wfd, struct.pack('<II', len(data), (1 if load else 0) | (2 if parse_only else 0)))
+      os.write(rec['wfd'], struct.pack('<II', len(data), (1 if load else 0) | (2 if parse_only else 0)))
       p = 0
       while p < len(data):
-        p += os.write(self.wfd, data[p:p + 65536])
+        p += os.write(rec['wfd'], data[p:p + 65536])
       line = self._readline(timeout)
     except (BrokenPipeError, OSError):
       line = b''
     if line is None:
       res.timeout = True
       res.died = True
-      self.start()
+      self._next()
       return res
     if line == b'':
       try:
-        self.p.wait(timeout=20)
+        rc = rec['p'].wait(timeout=60)
       except Exception:
-        pass
-      raise RuntimeError('C37 worker process itself died (rc=%s): %s' % (self.p.returncode, self._stderr()[-3000:]))
-    f = line.decode('utf-8', errors='replace').split('\t')
-    if f[0] == 'D':
-      sig, code = int(f[1]), int(f[2])
+        rc = None
       res.died = True
-      if sig == 14:
-        res.timeout = True
-      res.report = self._stderr(off)[-30000:] + '\n[document child ended: signal %d, exit code %d]' % (sig, code)
-      if sig == 0 and code not in (0, -1) and 'ERROR: AddressSanitizer' not in res.report and 'VF-ORACLE' not in res.report:
+      res.report = self._stderr(off)[-30000:] + '\n[worker ended: return code %s]' % rc
+      if rc is not None and rc > 0 and 'ERROR: AddressSanitizer' not in res.report and 'VF-ORACLE' not in res.report:
         res.report += '\nfuzz target exited'      # the library called exit(): same wording as libFuzzer, see classify_report
+      self._next()
       return res
+    f = line.decode('utf-8', errors='replace').split('\t')
     if f[0] != 'R' or len(f) < 12:
       raise RuntimeError('C37 worker protocol error: %r' % line[:200])
     res.parse, res.compile, res.save, res.load, res.reached = (int(x) for x in f[1:6])
@@ -241,6 +263,8 @@ class Worker:
     for _ in range(no):
       res.oracle.append(unesc(f[k]))
       k += 1
+    if any(e[1] == 'mju_error' for e in res.escapes):
+      self._next()      # the worker leaves after an abandoned call (undefined library state)
     return res
 
 
@@ -366,9 +390,9 @@ def classify_report(text):
     t = re.search(r"terminate called after throwing an instance of '([^']+)'", text)
     if t:
       out['kind'] = 'uncaught:' + t.group(1)
-  elif re.search(r'signal 11|SEGV|Segmentation', text):
+  elif re.search(r'return code -11\b|SEGV|Segmentation', text):
     out['kind'] = 'SEGV'
-  elif re.search(r'signal (6|4|7|8)\b', text):
+  elif re.search(r'return code -(6|4|7|8)\b', text):
     out['kind'] = 'abort'
   # first stack trace only
   start = text.find('    #0 ')
@@ -798,8 +822,8 @@ def minimize(doc, keep, pred, budget=40):
 
 
 def part_b(ck, S, g, exe_rel, exe_fuzz):
-  fast = Worker(exe_rel, False, WD)
-  slow = Worker(exe_fuzz, True, WD)
+  fast = Worker(exe_rel, False, WD, spares=2)
+  slow = Worker(exe_fuzz, True, WD, spares=1)
   stats = collections.Counter()
   per_kind = {k: collections.Counter() for k in gs.KINDS}
 
@@ -816,7 +840,7 @@ def part_b(ck, S, g, exe_rel, exe_fuzz):
         m = re.match(r'\S*libmujoco_vf\S*\(([^+()]+)\+0x', line)
         if m:
           names.append(m.group(1))
-    sig = re.search(r'signal (\d+)', report[report.rfind('[document child ended'):])
+    sig = re.search(r'return code (-?\d+)', report[report.rfind('[worker ended'):])
     return (sig.group(1) if sig else '?',) + tuple(names[:4])
 
   def run(xml, parse_only, load=False, both=False):
@@ -983,7 +1007,7 @@ def part_b(ck, S, g, exe_rel, exe_fuzz):
   slow.stop()
   ck.extra['schema_docs'] = dict(stats)
   ck.extra['per_kind'] = {k: dict(v) for k, v in per_kind.items() if v}
-  ck.extra['worker_restarts'] = dict(rel=fast.starts - 1, asan=slow.starts - 1)
+  ck.extra['worker_starts'] = dict(rel=fast.starts, asan=slow.starts)
   acc = ck.labels.get('b:conf:accepted', 0)
   if stats['base_docs'] >= 50 and acc < 0.3 * stats['base_docs']:
     raise RuntimeError('C37 generator health: only %d of %d conforming documents get past the reader' % (acc, stats['base_docs']))
